@@ -295,19 +295,22 @@ class Machine:
                 if (fn, bb) in self._site_label:
                     where = self._site_label[(fn, bb)]
                 else:
-                    k = 1
+                    n_lbl = 1
                     base_lbl = where
                     while where in self.site_info and self.site_info[where] != (fn, bb):
-                        k += 1
-                        where = "%s#%d" % (base_lbl, k)
+                        n_lbl += 1
+                        where = "%s#%d" % (base_lbl, n_lbl)
                     self._site_label[(fn, bb)] = where
                 if tgt is None:
                     return []
                 out = []
-                for label, binder in ev:
+                for item in ev:
+                    label, binder = item[0], item[1]
                     e2 = dict(env)
                     if not d["p"]:
                         e2.pop(d["l"], None)
+                    if len(item) > 2:
+                        e2.update(item[2])          # what this alternative says about a value (a flag written as true / as false)
                     if label is None:
                         for l, v in (binder(None) if binder else {}).items():
                             e2[l] = v
